@@ -6,7 +6,8 @@
    Premises: [col_stable] - the column type's characters are fixed points of from_char/to_char
    (true of DefaultColumnType and of the harness's two-letter type); [no_trailing_cr] - no
    physical line ends in a carriage return after str::lines (known finding D16 otherwise). *)
-From SLT Require Import Parser Unparse FormatSpec Render RenderProofs FormatProofs.
+From SLT Require Import Parser Unparse FormatSpec Render RenderProofs FormatProofs FsTrim Include Runner Update
+  UpdateFile1 UpdateFile3 UpdateText UpdateText7 FormatFile.
 Open Scope N_scope.
 
 Theorem C05_format_sound :
@@ -33,3 +34,58 @@ Print Assumptions C05_duration_roundtrip.
 Theorem C05_default_columns_stable : col_stable default_col.
 Proof. exact default_col_stable. Qed.
 Print Assumptions C05_default_columns_stable.
+
+(* ---- THROUGH `--format` ON REAL FILES (the model of the CLI's format mode is update_loop with format_only = true,
+   followed by the trailing-newline trimmer).  For a file that parses and has no line ending in CR (D16): nothing is
+   executed, the file is rewritten with the trimmed text of its records and - unless its last non-blank record ends in an
+   empty SQL line (known finding D19) - that content parses again to a script with the same meaning, and formatting the
+   parsed-back records again writes exactly the same bytes. *)
+Theorem C05_format_file_single :
+  forall (col : N -> option N) (rv : str -> bool) (rm : str -> str -> bool) (sep : str) (strict : bool)
+         (substitute : bool -> list (str * str) -> str -> subres) (sc : script),
+    col_stable col ->
+    forall (pfile : str) (upper : option loc) (main : str) (s : str) (rs : list record)
+           (st : rstate) (w : world) (written : list (str * list N)) (ev : list event) (kn : list N),
+      no_trailing_cr s ->
+      parse col rv pfile upper s = POk rs ->
+      update_loop rm sep strict substitute sc true rs [mkItem main []] false st w [] [] []
+        = UOk written ev kn ->
+      ev = [] /\ kn = [] /\
+      exists bytes,
+        written = [(main, bytes)] /\
+        trim_tail (utf8 (recs_text rs)) = TOk bytes /\
+        (dangling_end rs = false ->
+         exists text R,
+           bytes = utf8 text /\
+           (* the file written parses, to the same meaning *)
+           parse col rv pfile upper text = POk R /\
+           meaning R = meaning rs /\
+           (* and formatting it again reproduces the bytes *)
+           update_loop rm sep strict substitute sc true R [mkItem main []] false st w [] [] []
+             = UOk written [] []).
+Proof. exact format_file_single. Qed.
+Print Assumptions C05_format_file_single.
+
+(* the same for every file of an include tree: each file receives exactly its own records, read from its own content *)
+Theorem C05_format_file_tree :
+  forall (col : N -> option N) (rv : str -> bool) (rm : str -> str -> bool) (sep : str) (strict : bool)
+         (substitute : bool -> list (str * str) -> str -> subres) (sc : script)
+         (fs : str -> option fentry) (glob : str -> globres) (fuel : nat) (main : str)
+         (rs : list record) (st : rstate) (w : world)
+         (written : list (str * list N)) (ev : list event) (kn : list N),
+    col_stable col ->
+    (forall f s, fs f = Some (FFile s) -> no_trailing_cr s) ->
+    parse_file col rv fs glob fuel main = FOkR rs ->
+    update_loop rm sep strict substitute sc true rs [mkItem main []] false st w [] [] []
+      = UOk written ev kn ->
+    ev = [] /\ kn = [] /\
+    exists files_in,
+      split_files rs [(main, [])] [] = Some files_in /\
+      Forall (from_source col rv fs) files_in /\
+      Forall2 (fun (pin : str * list record) (d : str * list N) =>
+                 fst d = fst pin /\
+                 trim_tail (utf8 (recs_text (snd pin))) = TOk (snd d) /\
+                 format_fixed_point col rv rm sep strict substitute sc (snd pin) (snd d))
+              files_in written.
+Proof. exact format_file_end_to_end. Qed.
+Print Assumptions C05_format_file_tree.
